@@ -34,7 +34,17 @@ func VerifC18_SaleOrigin() {
 	if cfg == 2 || cfg == 3 {
 		contracts = append(contracts, &types.LightNodeSaleContract{ChainReferenceId: "other-chain", ContractAddress: "0x2222222222222222222222222222222222222222"})
 	}
-	if len(contracts) > 0 {
+	// an earlier governance decision may have authorised contracts on both chains; the
+	// configuration under test replaces it (and thereby revokes what it no longer lists)
+	earlier := sym.Bool("both-chains-authorised-earlier")
+	if earlier {
+		if err := env.K.SetAllLighNodeSaleContracts(env.Ctx, []*types.LightNodeSaleContract{
+			{ChainReferenceId: vChain, ContractAddress: authorised},
+			{ChainReferenceId: "other-chain", ContractAddress: "0x2222222222222222222222222222222222222222"}}); err != nil {
+			panic(err)
+		}
+	}
+	if len(contracts) > 0 || earlier {
 		if err := env.K.SetAllLighNodeSaleContracts(env.Ctx, contracts); err != nil {
 			panic(err)
 		}
